@@ -123,6 +123,11 @@ func rotationScenario(seed uint64) *explore.Scenario {
 		}
 		check("B", r.b.Received, r.sentA)
 		check("A", r.a.Received, r.sentB)
+		for _, n := range []*chlab.Node{r.a, r.b} {
+			if ch := n.ChangedAfterDelivery(); len(ch) > 0 {
+				add("plaintext-changed-after-delivery", fmt.Sprintf("%s: %d plaintexts handed out by Channel.Deliver changed afterwards, e.g. %s", n.Name, len(ch), ch[0]))
+			}
+		}
 		if r.a.InitHellos+r.b.InitHellos < 2 {
 			add("vacuous", "no session rotation happened in this run")
 		}
